@@ -136,6 +136,21 @@ def tyOp (name : String) (a : List String) : Option Types.TOp :=
   | "unverifiedFooter", [_] => some .unverifiedFooter
   | _, _ => none
 
+/-- header fragments for a payload type with encoding suffix `sfx` (`M::SUFFIX`) -/
+def tokHdrS (b : Backend) (p : Purpose) (sfx : Bytes) : List Bytes :=
+  [Extracted.versionHeader b, sfx, Extracted.kindHeader p.toKind]
+def sfxC : Bytes := [99]   -- "c"
+
+def locSealS (be : Backend) (sfx key nonce msg f a : Bytes) : Res String :=
+  (localKey key).bind fun k =>
+  (sealLocal (localScheme be) (tokHdrS be .localP sfx) k (nonce ++ msg) f a).map fun payload =>
+    toHex (showToken (Extracted.versionHeader be) sfx (Extracted.kindHeader .localK) ⟨payload, f⟩)
+
+def pubSignS (be : Backend) (sfx sk msg f a rnd : Bytes) : Res String :=
+  (keyDecode be .secretK sk).bind fun k =>
+  (sealPublic (publicScheme be) (tokHdrS be .publicP sfx) k msg f a rnd).map fun payload =>
+    toHex (showToken (Extracted.versionHeader be) sfx (Extracted.kindHeader .publicK) ⟨payload, f⟩)
+
 def parsePieces (s : String) : Option (List (List Bytes)) :=
   if s == "." then some [] else
   (s.splitOn "/").mapM (fun p =>
@@ -210,6 +225,14 @@ def step (line : String) : Option String :=
         some (showRes ((donorParams be kind donor).bind fun params => (keyDecode be kind.toKind key).bind fun key =>
           (rngPbkwWrap be (Extracted.paserkHeader be) (Extracted.pwHeader kind) pass params key src).map fun blob =>
             toHex (showSimple (Extracted.paserkHeader be) (Extracted.pwHeader kind) blob)))
+      else if op == "locc.seal" then do
+        let be ← Backend.ofString? be
+        let key ← ofHex sk; let nonce ← ofHex msg; let msg ← ofHex f; let f ← ofHex a; let a ← ofHex rnd
+        some (showRes (locSealS be sfxC key nonce msg f a))
+      else if op == "pubc.sign" then do
+        let be ← Backend.ofString? be
+        let sk ← ofHex sk; let msg ← ofHex msg; let f ← ofHex f; let a ← ofHex a; let rnd ← ofHex rnd
+        some (showRes (pubSignS be sfxC sk msg f a rnd))
       else none
   | ["pie.open", be, kind, wk, str, _want] => do
       let be ← Backend.ofString? be; let kind ← sk? (← Kind.ofString? kind)
